@@ -860,7 +860,9 @@ def run_backend(tier, seed, backend, n=None, nproc=16):
                        {"values": [["str", "20200101"], ["str", "20210315"]], "stream": "corpus:compact-dates"},
                        {"values": [["str", "2020-01-01"]], "stream": "corpus:date-only-string"},
                        {"values": [["str", ""], ["str", ""]], "stream": "corpus:empty-strings"},
-                       {"values": [["str", "true"], ["str", "false"]], "stream": "corpus:fixed-F22a"}]}
+                       {"values": [["str", "true"], ["str", "false"]], "stream": "corpus:fixed-F22a"},
+                       {"values": [["str", "CIRCULARSTRING (0 0, 1 1, 2 0)"]], "stream": "corpus:fixed-F50-nonlinear-wkt"},
+                       {"values": [["str", "POINT (1 2)"], ["str", "CURVEPOLYGON EMPTY"]], "stream": "corpus:fixed-F50-nonlinear-wkt-2"}]}
     recipes = corpus.get(backend, []) + recipes
     chunks = [recipes[i::nproc] for i in range(nproc)]
     with mp.Pool(nproc) as pool:
